@@ -154,7 +154,15 @@ func (cc *c06case) moreOps(cs *h.Case, tk []string, op string, optRoster func(st
 		bad := ro == nil || t.Roster == nil || !ro.ID.Equal(t.Roster.ID)
 		if !bad {
 			for _, n := range t.List() {
-				if i, _ := ro.Search(n.ServerIdentity.ID); i < 0 {
+				// looked up by the identifier of the key (own loop: not the code's search)
+				found := false
+				for _, e := range ro.List {
+					if e != nil && n.ServerIdentity != nil && e.GetID().Equal(n.ServerIdentity.GetID()) {
+						found = true
+						break
+					}
+				}
+				if !found {
 					bad = true
 				}
 			}
